@@ -92,7 +92,7 @@ func cmdCheck(args []string) int {
 	var missing []string
 	for _, k := range keys {
 		fc := eng.cs.Funcs[k]
-		if !matchProp(fc.Serves, *prop) || fc.Inline && len(fc.Ensures) == 0 {
+		if !matchProp(fc.Serves, *prop) || fc.Inline && len(fc.Ensures) == 0 && len(fc.Safety) == 0 {
 			continue
 		}
 		if *only != "" && !strings.Contains(fc.Name, *only) {
@@ -126,6 +126,16 @@ func cmdCheck(args []string) int {
 				obls = append(obls, o)
 			}
 		}
+	}
+	knownPre := loadKnown(filepath.Join(*verif, "known_findings.json"))
+	knownNames := map[string]bool{}
+	for _, k := range knownPre {
+		if k.Status == "known" {
+			knownNames[k.Obligation] = true
+		}
+	}
+	for _, o := range obls {
+		o.Known = knownNames[o.Name]
 	}
 	workDir, _ := os.MkdirTemp("", "govc-")
 	if !*keep {
